@@ -195,14 +195,17 @@ def c01(tier, seed):
                 # the same graph against the no_std build of the crate (configuration B)
                 sized("C01", tier, "sized_life_nostd_q", BASE + CONV_CORE + ["Borrow", "Enter", "Exit", "TryUnique", "MakeMut", "TryUnwrap"], 3, 2, 1, harness_cfg="b"),
                 mm("C01", tier, "mm_clone_drop_q", [("c01_2x3", ["clone", "read", "drop"], 2, 3, 2, False)]),
-                nested_frames("C01", tier), thin_lengths("C01", tier), inj("C01", tier)] + long_walks("C01", tier, seed)
+                nested_frames("C01", tier), thin_lengths("C01", tier), inj("C01", tier),
+                # every release path of every shape returns the block once; real ArcSwap traffic keeps counts exact
+                lay("C01", tier, "layout_matrix_q")] + long_walks("C01", tier, seed)
     return [sized("C01", tier, "sized_life_t", BASE + CONV + BORROW + ["TryUnique"], 4, 2, 2),
             sized("C01", tier, "sized_life_t5", BASE + CONV_CORE + ["Enter", "Exit"], 5, 2, 1, hows=("new", "newB")),
             walks("C01", tier, seed),
             thin("C01", tier, "thin_life_t", THIN_OPS, 4, 2, 2, 2),
             slices("C01", tier, "slices_life_t", 4, 2, 2), slices("C01", tier, "slices_walks_t", 6, 4, 3, simulate=(5000, 60, seed)),
             sized("C01", tier, "sized_life_nostd_t", BASE + CONV + BORROW + UNIQ + COW + UNWRAP, 3, 2, 1, harness_cfg="b"),
-            mm("C01", tier, "mm_clone_drop_t", [("c01_2x3", ["clone", "read", "drop"], 2, 3, 2, False), ("c01_3x3", ["clone", "read", "drop"], 3, 3, 1, False)]), inj("C01", tier)] + long_walks("C01", tier, seed)
+            mm("C01", tier, "mm_clone_drop_t", [("c01_2x3", ["clone", "read", "drop"], 2, 3, 2, False), ("c01_3x3", ["clone", "read", "drop"], 3, 3, 1, False)]), inj("C01", tier),
+            lay("C01", tier, "layout_matrix_t")] + long_walks("C01", tier, seed)
 
 
 def c03(tier, seed):
@@ -311,7 +314,7 @@ PROPS = {
     "C16": {"level": "model_checking", "stages": c16, "assumptions": ["the 4-bit count word is a scale model of the 64-bit one: the guard compares with half the range, which is parametric in the width", "start counts are preset through the tracer's knowledge of the count's address; each clone runs in its own child process", "concurrent increments racing past the limit are not modelled (the guard's slack of isize::MAX increments is the crate's documented assumption)"], "replay": any_replay},
     "C17": {"level": "model_checking", "stages": c17, "assumptions": ["SerCalls(value, k) is uninterpreted: the trace supplies the call log of the value and of the handle and Serde.tla requires them equal", "payload family: u64, String, tuple, Vec, Option, hand-written nested structs; recording serializer and token deserializer of the harness", "serde feature only (default configuration)"], "replay": any_replay},
     "C02": {"level": "model_checking", "stages": c02, "assumptions": MM_ASSUME, "replay": any_replay},
-    "C01": {"level": "model_checking", "stages": c01, "assumptions": GRAPH_ASSUME + MM_ASSUME, "replay": any_replay},
+    "C01": {"level": "model_checking", "stages": c01, "assumptions": GRAPH_ASSUME + MM_ASSUME + LAYOUT_ASSUME, "replay": any_replay},
     "C03": {"level": "model_checking", "stages": c03, "assumptions": GRAPH_ASSUME + MM_ASSUME, "replay": any_replay},
     "C04": {"level": "model_checking", "stages": c04, "assumptions": GRAPH_ASSUME, "replay": any_replay},
     "C08": {"level": "model_checking", "stages": c08, "assumptions": GRAPH_ASSUME + MM_ASSUME, "replay": any_replay},
